@@ -99,6 +99,8 @@ func main() {
 	case "record":
 		n, _ := strconv.Atoi(os.Args[3])
 		record(os.Args[2], n)
+	case "reexec": // reexec <events-in> <events-out>
+		reexec(os.Args[2], os.Args[3])
 	default:
 		hx.Die("unknown mode %s", os.Args[1])
 	}
@@ -262,5 +264,40 @@ func record(out string, n int) {
 	}
 	w.Close()
 	sum.Nontrivial = len(seen)
+	sum.Print()
+}
+
+// reexec: rebuild the records of every call from their packed form, apply the real helpers, Pack again.
+func reexec(in, out string) {
+	var sum hx.Summary
+	w := hx.NewWriter(out)
+	hx.ReadNDJSON(in, func(i int, e *event) {
+		m := new(dns.Msg)
+		m.SetUpdate(e.Zone.String())
+		m.Id = uint16(e.Id)
+		m.Question[0].Qclass = uint16(e.Zclass)
+		for _, c := range e.Calls {
+			var rrs []dns.RR
+			for _, o := range c.Origs {
+				rr, _, err := dns.UnpackRR(o.Bytes(), 0)
+				if err != nil {
+					hx.Die("event %d: recorded record does not unpack: %v", i, err)
+				}
+				rrs = append(rrs, rr)
+			}
+			if p := hx.Catch(func() { apply(m, c.H, rrs) }); p != "" {
+				sum.Mis("update/panic:"+c.H, "panic: "+p, e)
+			}
+		}
+		wire, err := m.Pack()
+		e.Ok, e.Err = err == nil, ""
+		if err != nil {
+			e.Err = err.Error()
+		}
+		e.Wire = hx.FromBytes(wire)
+		w.Emit(e)
+		sum.Evaluations++
+	})
+	w.Close()
 	sum.Print()
 }
